@@ -1,4 +1,4 @@
-CONSTANTS Vocab = {"a", "db", "main", "zz", "upa", "b"}
+CONSTANTS Vocab = {"a", "db", "main", "zz", "b"}
           MaxMain = 2
           MaxOther = 1
           Machines = {"cli", "lib", "lsp", "col"}
